@@ -401,6 +401,89 @@ theorem pop_iteration {g : Graph V} (wf : WF g) (mix : M → V → V → V) (d :
     rw [q3, r2, hx]
     rfl
 
+/-- one individual-sampler step inside an iteration: the variable, the proposed change, the mask of rejected
+    individuals and what is read before / after the proposal -/
+structure IndStep (V M : Type) where
+  var : Nat
+  change : V → V
+  rejected : M
+  readsBefore : List Nat
+  readsAfter : List Nat
+
+/-- the individual part of MCMC iterations: steps on any individual variables, one after the other, on one state -/
+def indSweep (g : Graph V) (mix : M → V → V → V) (d : V) (s : St V) (ws : List (IndStep V M)) : St V :=
+  ws.foldl (fun s w => indSamplerStep g mix s w.var w.readsBefore w.readsAfter w.change d w.rejected) s
+
+/-- The documented precondition of the per-individual revert, evaluated when each step is executed (as `Valid` in C01):
+    what is cached on both sides of the proposal, among the dependents of the sampled variable, carries the
+    individual axis. -/
+def IndValid (g : Graph V) (mix : M → V → V → V) (d : V) : St V → List (IndStep V M) → Prop
+  | _, [] => True
+  | s, w :: r =>
+    (∀ x, s.vals w.var = some x → ∀ k ∈ g.desc w.var, ∀ o c, (gets g s w.readsBefore).vals k = some o →
+      (gets g (State.set g (gets g s w.readsBefore) w.var (some (w.change x))).1 w.readsAfter).vals k = some c →
+      Commutes g mix w.rejected w.var k) ∧
+    IndValid g mix d (indSamplerStep g mix s w.var w.readsBefore w.readsAfter w.change d w.rejected) r
+
+private theorem revert_mode (mix : M → V → V → V) (s : St V) (m : Option M) : (revert mix s m).1.mode = s.mode := by
+  unfold revert
+  cases s.fork <;> cases m <;> rfl
+
+private theorem indSamplerStep_mode {g : Graph V} (wf : WF g) (mix : M → V → V → V) {s : St V} (h : Inv g s)
+    (hm : s.mode = true) {i : Nat} (hi : i < g.n) (hk : g.kind i = .indep true) {x : V} (hx : s.vals i = some x)
+    (rb ra : List Nat) (hrb : ∀ j ∈ rb, j < g.n) (hra : ∀ j ∈ ra, j < g.n) (change : V → V) (d : V) (m : M) :
+    (indSamplerStep g mix s i rb ra change d m).mode = true := by
+  obtain ⟨b1, _, _, b4, b5⟩ := gets_spec wf rb s h hrb
+  have hx1 : (gets g s rb).vals i = some x := b5 i x hx
+  have hput := put_cached (g := g) (gets g s rb) hi hx1 change d
+  obtain ⟨_, _, f3⟩ := set_fork (g := g) (gets g s rb) hi hk (b4.trans hm) (some (change x))
+  obtain ⟨_, _, _, g4, _⟩ := gets_spec wf ra _ (inv_set wf b1 i (some (change x))) hra
+  unfold indSamplerStep
+  simp only [hput]
+  rw [revert_mode]
+  exact g4.trans f3
+
+/-- **Several individual variables, any number of steps.**  After any list of individual-sampler steps (any variables,
+    any masks, the documented precondition holding when each revert is executed), each sampled variable holds, entry
+    by entry, the old value where its proposals were rejected and the proposed one where accepted, step after step;
+    no other independent value changed; no fork is left; the state is consistent. -/
+theorem ind_sweep {g : Graph V} (wf : WF g) (mix : M → V → V → V) (d : V) :
+    ∀ (ws : List (IndStep V M)) (s : St V), Inv g s → s.mode = true → s.fork = none →
+      (∀ w ∈ ws, w.var < g.n ∧ g.kind w.var = .indep true ∧ (absS g s w.var).isSome ∧
+        (∀ j ∈ w.readsBefore, j < g.n) ∧ (∀ j ∈ w.readsAfter, j < g.n)) →
+      IndValid g mix d s ws →
+      Inv g (indSweep g mix d s ws) ∧ (indSweep g mix d s ws).mode = true ∧ (indSweep g mix d s ws).fork = none ∧
+      absS g (indSweep g mix d s ws) =
+        ws.foldl (fun a w => upd a w.var ((a w.var).map (fun x => mix w.rejected x (w.change x)))) (absS g s) := by
+  intro ws
+  induction ws with
+  | nil => intro s h hm hf _ _; exact ⟨h, hm, hf, rfl⟩
+  | cons w ws ih =>
+    intro s h hm _ hw hv
+    obtain ⟨hi, hk, hset, hrb, hra⟩ := hw w (by simp)
+    obtain ⟨x, hx⟩ := Option.isSome_iff_exists.1 hset
+    have hvx : s.vals w.var = some x := (vals_of_abs hk rfl).trans hx
+    obtain ⟨hpre, hrestV⟩ := hv
+    obtain ⟨r1, r2, r3, _⟩ := ind_sampler_step wf mix h hm hi hk hvx w.readsBefore w.readsAfter hrb hra
+      w.change d w.rejected (hpre x hvx)
+    have r4 := indSamplerStep_mode wf mix h hm hi hk hvx w.readsBefore w.readsAfter hrb hra w.change d w.rejected
+    have hrest : ∀ w' ∈ ws, w'.var < g.n ∧ g.kind w'.var = .indep true ∧
+        (absS g (indSamplerStep g mix s w.var w.readsBefore w.readsAfter w.change d w.rejected) w'.var).isSome ∧
+        (∀ j ∈ w'.readsBefore, j < g.n) ∧ (∀ j ∈ w'.readsAfter, j < g.n) := by
+      intro w' hw'
+      obtain ⟨a1, a2, a3, a4, a5⟩ := hw w' (by simp [hw'])
+      refine ⟨a1, a2, ?_, a4, a5⟩
+      rw [r2]
+      unfold upd
+      by_cases e : w'.var = w.var
+      · simp [e]
+      · simpa [e] using a3
+    obtain ⟨q1, q2, q3, q4⟩ := ih _ r1 r4 r3 hrest hrestV
+    simp only [indSweep, List.foldl_cons] at q1 q2 q3 q4 ⊢
+    refine ⟨q1, q2, q3, ?_⟩
+    rw [q4, r2, hx]
+    rfl
+
 /-! ### the documented precondition of a per-individual revert, structurally -/
 
 /-- With values as functions of the individual index (`IVal R = Nat → R`; population-level values are the constant
